@@ -16,7 +16,8 @@
 //!                               HREFS <0|1> (1 = the result references the input buffer)
 //!   dec / decq / merge / mergeq / declen / lendelim additionally run the same call over NON-CONTIGUOUS layouts of the
 //!   same bytes (two chunks cut at every position of short inputs / after continuation bytes and at pseudo-random
-//!   positions of long ones, through a multi-chunk Buf and through Buf::chain; pieces of 1, 2, 3, 7 bytes; a VecDeque<u8>
+//!   positions of long ones and INSIDE the payloads of their length-delimited records, through a multi-chunk Buf and
+//!   through Buf::chain; pieces of 1, 2, 3, 7 bytes; a VecDeque<u8>
 //!   that wraps around) and append ` ORACLE-FAIL <layout> gives <answer>` when the answer (value re-encoded / error
 //!   class) differs from the contiguous one
 //!   grp    <idx> <opt> <req> <many> <tail>   the group codec (pilota::prost::encoding::group) through the hand-written
@@ -336,6 +337,61 @@ impl Layout {
     }
 }
 
+fn read_varint(d: &[u8]) -> Option<(u64, usize)> {
+    let mut v = 0u64;
+    for (i, b) in d.iter().enumerate().take(10) {
+        v |= ((b & 0x7f) as u64) << (7 * i);
+        if b & 0x80 == 0 {
+            return Some((v, i + 1));
+        }
+    }
+    None
+}
+
+/// positions strictly INSIDE the payloads of the length-delimited records of `data` (strings, bytes, packed runs, embedded
+/// messages, map entries -- read without a schema, embedded payloads that parse as records recursively): just behind the
+/// start, the middle, just before the end
+fn payload_cuts(data: &[u8], base: usize, depth: u32, out: &mut Vec<usize>) {
+    let mut p = 0;
+    while p < data.len() && out.len() < 96 {
+        let (k, n) = match read_varint(&data[p..]) {
+            Some(x) => x,
+            None => return,
+        };
+        p += n;
+        match k & 7 {
+            0 => match read_varint(&data[p..]) {
+                Some((_, n)) => p += n,
+                None => return,
+            },
+            1 => p += 8,
+            5 => p += 4,
+            2 => {
+                let (len, n) = match read_varint(&data[p..]) {
+                    Some(x) => x,
+                    None => return,
+                };
+                p += n;
+                if len > (data.len().saturating_sub(p)) as u64 {
+                    return;
+                }
+                let len = len as usize;
+                if len >= 2 {
+                    out.push(base + p + 1);
+                    out.push(base + p + len / 2);
+                    out.push(base + p + len - 1);
+                }
+                if depth < 3 {
+                    payload_cuts(&data[p..p + len], base + p, depth + 1, out);
+                }
+                p += len;
+            }
+            3 | 4 => {}
+            _ => return,
+        }
+    }
+}
+
 fn layouts(data: &[u8]) -> Vec<Layout> {
     let n = data.len();
     let mut out = vec![];
@@ -345,8 +401,14 @@ fn layouts(data: &[u8]) -> Vec<Layout> {
     let mut cuts: Vec<usize> = if n <= 40 {
         (1..n).collect()
     } else {
-        // after continuation bytes (inside multi-byte varints), plus pseudo-random positions
+        // after continuation bytes (inside multi-byte varints), inside the payloads of length-delimited records, plus
+        // pseudo-random positions
         let mut v: Vec<usize> = (1..n).filter(|&k| data[k - 1] & 0x80 != 0).take(if n <= 4096 { 24 } else { 6 }).collect();
+        let mut inside = vec![];
+        payload_cuts(data, 0, 0, &mut inside);
+        inside.retain(|&k| k >= 1 && k < n);
+        let step = (inside.len() / (if n <= 4096 { 36 } else { 9 })).max(1);
+        v.extend(inside.iter().step_by(step).copied());
         let mut x = (n as u64).wrapping_mul(2654435761).wrapping_add(data[0] as u64);
         for _ in 0..(if n <= 4096 { 8 } else { 3 }) {
             x = x.wrapping_mul(6364136223846793005).wrapping_add(1442695040888963407);
